@@ -19,6 +19,7 @@ DRIVERS = {
     'waituntil': {'vm': 'waituntil'},
     'operators_total': {'vm': 'operators_total'},
     'operators_select': {'vm': 'operators_total'},
+    'operators_format': {'vm': 'operators_total'},
     'runtime_core': {'vm': 'runtime_core'},
     'runtime_execute': {'vm': 'runtime_step'},
     'runtime_sched': {'vm': 'waituntil'},
